@@ -239,10 +239,14 @@ CHECKS = [
         "changes, returning to earlier schemas; no type-only change) every Add is accepted, the output decodes to exactly the inputs and the chunk "
         "sizes are exactly change points U capacity points; C08_no_mixing — in every reachable state of every kind every chunk holds only samples "
         "with the metric count and types of its reference document; C08_add_same_types / C08_add_refused — a differing document is refused with an "
-        "error and the state unchanged; C08_dyn_count_refuted documents that the dynamic collector compares key paths only. Correspondence and "
-        "c08_ok oracle on exhaustive short and random schema sequences.",
+        "error and the state unchanged; C08_dyn_count_refuted documents that the dynamic collector compares key paths only. "
+        "C08_signature_injective (Proofs/SigInjective.v): the key string the schema-aware collectors hash (bson_hash.go after fix f2c2358, "
+        "defect D23) determines the skeleton of a document once the metric types are given, so C08_dynamic_all_schemas states C08_dynamic "
+        "WITHOUT the hypothesis that the collector can tell the schemas of the sequence apart. Correspondence and c08_ok oracle on exhaustive "
+        "short and random schema sequences (pool incl. regrouped, renamed and moved leaves), and a second stage over the uncompressed "
+        "collectors that are not schema-aware (model and oracle of C17).",
         "Trusted: as C01; FNV-64 hash collisions are outside the model (signatures compared as strings). The pre-repair behaviour of both "
-        "schema-aware collectors (D9, D10) is detected by the oracle (see DESIGN.md section 7).",
+        "schema-aware collectors (D9, D10) and of the schema hash (D23) is detected by the oracle (see DESIGN.md section 7).",
         "Coq proof (induction over document sequences, run-length/capacity arithmetic) + differential correspondence",
         "DESIGN.md section 8 C08"),
     chk("C09",
@@ -296,7 +300,9 @@ CHECKS = [
         "In addition the integer arithmetic of hdrhist/hdr.go (bitLen, getBucketIndex, getSubBucketIdx, countsIndex(For), valueFromIndex, "
         "sizeOf/lowest/next/highest/medianEquivalentValue, the RecordValues bounds test, the integer part of New) is TRANSLATED from the Go source "
         "into Gallina on every run (harness/hdrtrans.go -> coq/Generated/HdrArith.v) and Props/FactsHdr.v re-proves each translated function equal "
-        "to the model's and restates C12_accepts / C12_in_range / C12_width (and C13_rank) over the translated functions.",
+        "to the model's and restates C12_accepts / C12_in_range / C12_width (and C13_rank) over the translated functions. "
+        "RecordValues runs and RecordCorrectedValue are in the model: C12_record_values_is_repeated_record_value, C12_corrected_values_closed_form, "
+        "C12_corrected_is_a_record_sequence, C12_corrected_counts, C12_corrected_refused_unchanged.",
         "Trusted: Coq kernel, extraction, OCaml/Go/python glue, generator quality. Float64 Log2/Pow steps of New are replaced by exact integer "
         "functions in the model and tied by correspondence only (exhaustively for s in 1..5, lo sampled up to 2^41). hi < 2^62 assumed.",
         "Coq proof (induction, Z.log2 arithmetic) + differential correspondence model vs implementation",
